@@ -2,7 +2,7 @@
 META = {
     "level": 'fault_enumeration',
     "technique": 'call-log oracle on the real ShareCrawler (and LeaseCheckingCrawler) driven by virtual time: enumerated subsets of time-slice interruption points, restarts at every slice boundary, and process kills at every hook and every file-system step of save_state, each followed by a restart from the state file',
-    "text": 'Runs the real allmydata.storage.crawler.ShareCrawler (recording subclass; service started, slices fired by the virtual reactor) on a fabricated share directory with <=6 buckets over the first, a middle and the last of the 1024 prefixes. storage.crawler.time is a virtual clock that jumps past cpu_slice at chosen points, forcing TimeSliceExceeded there. Enumerated: every subset of interruption points {after each bucket, end of each non-empty prefix and of its neighbour prefixes} for each layout (thorough: all subsets of every layout, up to 2^13, x all 3 restart modes for the <=10-point layouts and a rotating mode for the 13-point ones; quick: all subsets of the <=6-point layouts with a rotating mode, seeded samples of the larger ones), single interruptions at prefix ends across the whole ring, and single kills (crawler object abandoned, new crawler built on the same state file) before/after every process_bucket, in every started_cycle/finished_prefix/finished_cycle hook and at 5 steps inside every save_state (before the temp file is opened, temp file empty, half written, fully written but not renamed, after rename), under 4 interruption schedules; plus seeded multi-fault runs with buckets added/removed mid-cycle (not judged) and 4-cycle runs over one or two non-empty prefixes in which buckets are added and removed BETWEEN cycles, while the crawler sleeps (a bucket added there exists throughout the next cycle and is judged), on the same crawler object and across restarts; and runs in which the slice ends inside a prefix after its k-th bucket and that bucket (or an earlier / later one) is removed before the crawl resumes on the same object or on a new crawler built from the state file. A second family runs the real LeaseCheckingCrawler on real shares and restarts it from its saved state mid-cycle: after leased buckets, after empty prefixes only (no lease counted yet), and after a bucket whose mutable slot is then deleted through the storage API before the resume. Oracle per completed cycle: every bucket present throughout is passed to process_bucket exactly once if no kill happened inside a slice of that cycle, at least once otherwise; process_bucket arguments are consistent; last-cycle-finished (get_state() and the JSON state file) advances by exactly one per completed cycle and never goes back.',
+    "text": 'Runs the real allmydata.storage.crawler.ShareCrawler (recording subclass; service started, slices fired by the virtual reactor) on a fabricated share directory with <=6 buckets over the first, a middle and the last of the 1024 prefixes. storage.crawler.time is a virtual clock that jumps past cpu_slice at chosen points, forcing TimeSliceExceeded there. Enumerated: every subset of interruption points {after each bucket, end of each non-empty prefix and of its neighbour prefixes} for each layout (thorough: all subsets of every layout, up to 2^13, x all 3 restart modes for the <=10-point layouts and a rotating mode for the 13-point ones; quick: all subsets of the <=6-point layouts with a rotating mode, seeded samples of the larger ones), single interruptions at prefix ends across the whole ring, and single kills (crawler object abandoned, new crawler built on the same state file) before/after every process_bucket, in every started_cycle/finished_prefix/finished_cycle hook and at 6 steps inside every save_state (before the temp file is opened, temp file empty, half written, fully written but not renamed, inside move_into_place() immediately before its os.rename, after rename), under 4 interruption schedules; plus seeded multi-fault runs with buckets added/removed mid-cycle (not judged) and 4-cycle runs over one or two non-empty prefixes in which buckets are added and removed BETWEEN cycles, while the crawler sleeps (a bucket added there exists throughout the next cycle and is judged), on the same crawler object and across restarts; and runs in which the slice ends inside a prefix after its k-th bucket and that bucket (or an earlier / later one) is removed before the crawl resumes on the same object or on a new crawler built from the state file. A second family runs the real LeaseCheckingCrawler on real shares and restarts it from its saved state mid-cycle: after leased buckets, after empty prefixes only (no lease counted yet), and after a bucket whose mutable slot is then deleted through the storage API before the resume. Oracle per completed cycle: every bucket present throughout is passed to process_bucket exactly once if no kill happened inside a slice of that cycle, at least once otherwise; process_bucket arguments are consistent; last-cycle-finished (get_state() and the JSON state file) advances by exactly one per completed cycle and never goes back.',
     "note": 'Trusts the recording subclass, the virtual clock shim and the emulation of a crash inside save_state (the harness performs the same open/write/rename sequence as _dump_json_to_file + move_into_place and stops at the chosen step; torn writes below file granularity are C29 territory). Buckets added or removed mid-cycle are not judged.',
 }
 LEVEL = "fault_enumeration"
@@ -37,7 +37,8 @@ class StubServer(object):
         self.sharedir = sharedir
 
 
-SAVE_STEPS = ("before-tmp-open", "tmp-created-empty", "tmp-half-written", "tmp-written-not-renamed", "after-rename")
+SAVE_STEPS = ("before-tmp-open", "tmp-created-empty", "tmp-half-written", "tmp-written-not-renamed",
+              "inside-move-before-rename", "after-rename")
 
 
 class Harness(object):
@@ -66,6 +67,7 @@ class Harness(object):
         self.incarnations = 0
         self.latest_cycle = 0
         self.points_seen = []               # every hook point reached, for kill enumeration
+        self.in_move = False
         self.after_slice = {}               # {(cycle, kind, arg): callable} run once the slice containing the point ended
         self.pending_between = []
         self.members = {}                   # cycle -> set of buckets present throughout it (when it differs from static)
@@ -118,8 +120,21 @@ class Harness(object):
                 raise Kill(("save", idx, step))
         return real_dump(js, afile)
 
+    def on_os(self, op, path):
+        """Called by the os proxy installed in allmydata.util.fileutil just before os.rename/os.replace on the
+        state file: a kill here lands inside move_into_place(), after whatever it did before the rename."""
+        if self.in_move and self.kill_save is not None and self.kill_save[0] == self.saves - 1 \
+                and self.kill_save[1] == "inside-move-before-rename" \
+                and os.path.basename(path).startswith(os.path.basename(self.statefile)):
+            self.kill_save = None
+            raise Kill(("save", self.saves - 1, "inside-move-before-rename"))
+
     def on_move(self, real_move, src, dst):
-        real_move(src, dst)
+        self.in_move = True
+        try:
+            real_move(src, dst)
+        finally:
+            self.in_move = False
         if self.kill_save is not None and self.kill_save[0] == self.saves - 1 and self.kill_save[1] == "after-rename" \
                 and dst.endswith(".json"):
             self.kill_save = None
@@ -348,6 +363,28 @@ def run(ck):
                 return real_fileutil.move_into_place(src, dst)
             return h.on_move(real_fileutil.move_into_place, src, dst)
 
+    class OsProxy(object):
+        """`os` as seen by allmydata.util.fileutil: rename/replace on the state file can be a kill point."""
+
+        def __getattr__(self, name):
+            return getattr(os, name)
+
+        @staticmethod
+        def rename(src, dst, *a, **kw):
+            h = current[0]
+            if h is not None:
+                h.on_os("rename", dst)
+            return os.rename(src, dst, *a, **kw)
+
+        @staticmethod
+        def replace(src, dst, *a, **kw):
+            h = current[0]
+            if h is not None:
+                h.on_os("replace", dst)
+            return os.replace(src, dst, *a, **kw)
+
+    saved_fileutil_os = real_fileutil.os
+    real_fileutil.os = OsProxy()
     crawler_mod.time = vtime
     expirer_mod.time = vtime
     lease_mod.time = vtime
@@ -888,6 +925,7 @@ def run(ck):
             site.close()
 
     (crawler_mod.time, expirer_mod.time, lease_mod.time, crawler_mod._dump_json_to_file, crawler_mod.fileutil) = saved
+    real_fileutil.os = saved_fileutil_os
     ck.exhaustive = bool(ck.tier == "thorough" and complete and kill_complete)
     ck.require_monitor("coverage-oracle", "cycle-number-oracle")
     ck.require_reach("time-slice-forced", "kill-inside-slice", "kill-inside-save-state",
